@@ -13,7 +13,8 @@ RULE = ("ordered pairs of automata (eps-NFA/NFA/DFA, both orders are separate mo
         "equivalence, minimize() judged for equivalence, reachability, pairwise distinguishability (Moore on the "
         "extracted result) and isomorphism of the two minimised sides of reference-equal pairs. "
         "Non-trivial: both automata have >=1 transition and at least one language is neither empty nor Sigma*; "
-        "distinct = canonical hash of the pair.")
+        "distinct = canonical hash of the pair."
+        ' Later additions: explicit incomplete sinks vs the same language without them; an operand edited through the public mutators (start state included) after a comparison and compared again.')
 ASSUMPTIONS = ["which canonical convention minimize() uses (trim or complete) is not demanded, only that it is the "
                "same on both sides of an equal pair",
                "symbol values within one pair are mutually orderable (mixed int/str symbol values are not generated)"]
